@@ -51,7 +51,10 @@ func (_this *markerObjectBuilder) String() string {
 
 func (_this *markerObjectBuilder) onObjectFinished(ctx *Context, dst reflect.Value) {
 	if !_this.isContainer {
-		ctx.UnstackBuilder()
+		// The child may have stacked builders of its own (a node stacks the
+		// builder for its children once it has its value), so this builder is
+		// not necessarily on top any more.
+		ctx.UnstackThisBuilder(_this)
 		ctx.NotifyMarker(_this.id, dst)
 	}
 }
